@@ -10,6 +10,7 @@ from fences.core.exception import FencesException  # noqa: E402
 
 FIX_LONE_IF = 1        # model variant flags matching /repo (see known_findings.json)
 FUEL = 400
+TIME_LIMIT = 6
 COMBINATORS = ("anyOf", "allOf", "oneOf", "not", "if", "then", "else", "const")
 
 
@@ -24,7 +25,7 @@ def _alarm(signum, frame):
 def run_normalize(doc, full, dup):
     cfg = NormalizationConfig(full_merge=full, detect_duplicate_subschemas=dup)
     signal.signal(signal.SIGALRM, _alarm)
-    signal.alarm(10)
+    signal.alarm(TIME_LIMIT)
     try:
         return normalize(copy.deepcopy(doc), cfg), None
     except Timeout:
@@ -81,18 +82,69 @@ def nf_problems(nf):
     return probs
 
 
+def resolve_ref(doc, ref):
+    if ref in ("#", "#/"):
+        return doc
+    if not isinstance(ref, str) or not ref.startswith("#/"):
+        return None
+    cur = doc
+    for p in ref[2:].split("/"):
+        if isinstance(cur, dict) and p in cur:
+            cur = cur[p]
+        elif isinstance(cur, list) and p.isdigit() and int(p) < len(cur):
+            cur = cur[int(p)]
+        else:
+            return None
+    return cur
+
+
 def in_c06_scope(doc):
-    """schemas that get negated name at most one property and have no items/prefixItems/contains"""
+    """every schema that gets negated -- the operand of not, the if of a conditional, each branch of a oneOf, and (because
+    the inverter negates them in turn) the property sub-schemas of such a schema -- names at most one property and has no
+    items / prefixItems / contains; references and combinators are followed"""
+    if not isinstance(doc, dict):
+        return True
     ok = [True]
+
+    def facts(s, seen, names, props):
+        if not isinstance(s, dict) or id(s) in seen:
+            return
+        seen.add(id(s))
+        if any(k in s for k in ("items", "prefixItems", "contains")):
+            ok[0] = False
+        if isinstance(s.get("properties"), dict):
+            names.update(s["properties"].keys())
+            props.extend(s["properties"].values())
+        if isinstance(s.get("required"), list):
+            names.update(x for x in s["required"] if isinstance(x, str))
+        if isinstance(s.get("$ref"), str):
+            facts(resolve_ref(doc, s["$ref"]), seen, names, props)
+        for k in ("allOf", "anyOf", "oneOf"):
+            for x in s.get(k, []) if isinstance(s.get(k), list) else []:
+                facts(x, seen, names, props)
+        for k in ("not", "if", "then", "else"):
+            if k in s:
+                facts(s[k], seen, names, props)
+    negated = set()
+
+    def check_neg(s):
+        if not isinstance(s, dict) or id(s) in negated:
+            return
+        negated.add(id(s))
+        names, props = set(), []
+        facts(s, set(), names, props)
+        if len(names) > 1:
+            ok[0] = False
+        for p in props:
+            check_neg(p)
 
     def walk(s):
         if isinstance(s, dict):
             for k in ("not", "if"):
-                if k in s and not J.negatable(s[k]):
-                    ok[0] = False
+                if k in s:
+                    check_neg(s[k])
             for b in s.get("oneOf", []) if isinstance(s.get("oneOf"), list) else []:
-                if not J.negatable(b):
-                    ok[0] = False
+                check_neg(b)
             for v in s.values():
                 walk(v)
         elif isinstance(s, list):
@@ -102,25 +154,66 @@ def in_c06_scope(doc):
     return ok[0]
 
 
+def recursion_through_if_operand(doc):
+    """some 'if' operand contains (through combinators) a reference from whose target the same conditional is reached again"""
+    if not isinstance(doc, dict):
+        return False
+
+    def refs_in(s, acc, seen):
+        if not isinstance(s, dict) or id(s) in seen:
+            return
+        seen.add(id(s))
+        if isinstance(s.get("$ref"), str):
+            acc.append(s["$ref"])
+        for k in ("allOf", "anyOf", "oneOf"):
+            for x in s.get(k, []) if isinstance(s.get(k), list) else []:
+                refs_in(x, acc, seen)
+        for k in ("not", "if", "then", "else"):
+            if k in s:
+                refs_in(s[k], acc, seen)
+
+    def reaches(start, goal):
+        seen, todo = set(), [start]
+        while todo:
+            x = todo.pop()
+            if x is goal:
+                return True
+            if isinstance(x, dict):
+                if id(x) in seen:
+                    continue
+                seen.add(id(x))
+                if isinstance(x.get("$ref"), str):
+                    todo.append(resolve_ref(doc, x["$ref"]))
+                todo.extend(x.values())
+            elif isinstance(x, list):
+                todo.extend(x)
+        return False
+    found = [False]
+
+    def walk(s):
+        if isinstance(s, dict):
+            if "if" in s:
+                acc = []
+                refs_in(s["if"], acc, set())
+                for r in acc:
+                    if reaches(resolve_ref(doc, r), s):
+                        found[0] = True
+            for v in s.values():
+                walk(v)
+        elif isinstance(s, list):
+            for v in s:
+                walk(v)
+    walk(doc)
+    return found[0]
+
+
 def guarded(doc):
     """every cycle of references passes through properties / items / prefixItems / additionalProperties / contains"""
     if not isinstance(doc, dict):
         return True
 
     def resolve(ref):
-        if ref in ("#", "#/"):
-            return doc
-        if not ref.startswith("#/"):
-            return None
-        cur = doc
-        for p in ref[2:].split("/"):
-            if isinstance(cur, dict) and p in cur:
-                cur = cur[p]
-            elif isinstance(cur, list) and p.isdigit() and int(p) < len(cur):
-                cur = cur[int(p)]
-            else:
-                return None
-        return cur
+        return resolve_ref(doc, ref)
 
     def unguarded_refs(s, acc):
         """references reachable from s through combinators only"""
@@ -211,7 +304,10 @@ def oracle_c06(doc, full, rng):
 def oracle_c16(doc, full, dup):
     nf, err = run_normalize(doc, full, dup)
     if err == "timeout" or err == "fuel":
-        return [("normalize-does-not-terminate", "normalize() %s on a schema with guarded recursion" % ("exceeds 10 s" if err == "timeout" else "raises RecursionError"))]
+        sig = "normalize-does-not-terminate"
+        if recursion_through_if_operand(doc):
+            sig += ":recursive-reference-in-if-operand"
+        return [(sig, "normalize() %s on a schema with guarded recursion" % ("exceeds %d s" % TIME_LIMIT if err == "timeout" else "raises RecursionError"))]
     if err:
         return []
     probs = nf_problems(nf)
@@ -267,20 +363,32 @@ def run(pid, tier):
         ck.violation("coq-obligation", "coq/Properties/%s.v no longer checks: %s" % (pid, ck.obl["log"][-300:]),
                      {"theorem": ck.obl["file"]}, found_input=False)
     rng = random.Random(ck.seed * 577 + 13)
-    n = 250 if tier == "quick" else 4000
+    n = 420 if tier == "quick" else 5000
     docs = []
+    hist = {"raises_library_exception": 0, "with_ref": 0, "with_not_if_oneOf": 0, "in_c06_scope": 0, "recursive": 0,
+            "random_documents": 0, "conjunctions_of_one_keyword_group": 0, "recursion_through_not_or_if": 0, "diverges": 0}
     while len(docs) < n:
-        d = J.gen_document(rng, rng.choice([1, 2, 3]))
+        m = rng.random()
+        if m < 0.50:
+            d = J.gen_document(rng, rng.choice([1, 2, 3]))
+            hist["random_documents"] += 1
+        elif m < 0.95:
+            d = J.gen_merge_doc(rng)
+            hist["conjunctions_of_one_keyword_group"] += 1
+        else:
+            d = J.gen_negated_recursion(rng)
+            hist["recursion_through_not_or_if"] += 1
         if isinstance(d, bool) or J.metaschema_ok(d):
             docs.append(d)
     J.install_ordered_sets()
-    hist = {"raises_library_exception": 0, "with_ref": 0, "with_not_if_oneOf": 0, "in_c06_scope": 0, "recursive": 0}
     lines, meta = [], []
     for d in docs:
         for full in (True, False):
             dup = rng.random() < 0.3
             lines.append(" ".join(["N", str(FIX_LONE_IF), str(int(full)), str(int(dup)), str(FUEL)] + J.enc_json(d)))
             meta.append((d, full, dup))
+    import os
+    os.environ["FENCES_DRIVER_LIMIT"] = "12"
     model = run_driver(lines)
     orc = random.Random(ck.seed + 99)
 
@@ -295,7 +403,8 @@ def run(pid, tier):
             ck.cov["traces_validated_against_impl"] += 1
             if err:
                 impl = "norm=" + err
-                same = impl == m
+                same = impl == m or (err in ("timeout", "fuel") and m in ("norm=fuel", "error=timeout"))
+                hist["diverges"] += err in ("timeout", "fuel")
             else:
                 same = False
                 if m.startswith("norm=ok:"):
@@ -304,6 +413,9 @@ def run(pid, tier):
                         same = J.canon(mv) == J.canon(nf)
                     except Exception:  # noqa
                         same = False
+            if not same and m == "error=timeout":
+                hist["model_gave_up"] = hist.get("model_gave_up", 0) + 1
+                same = True
             if not same and not err and m.startswith("norm=ok:"):
                 # The implementation mutates sub-schemas that several alternatives share (in-place list growth in
                 # _merge_prefix_items, in-place replacement in _inline_refs); the functional model does not reproduce
@@ -319,7 +431,17 @@ def run(pid, tier):
                     pass
             if not same:
                 ck.cov["disagreements_checked"] += 1
-                if ck.cov["disagreements_checked"] <= 3:
+                found = False
+                if pid == "C06" and in_c06_scope(d):
+                    # the model and the code differ here: look for an instance on which the code is wrong
+                    for k in range(6):
+                        got = oracle_c06(d, full, random.Random(1000 + k))
+                        if got:
+                            sig, what, x = got[0]
+                            ck.violation(sig, what, {"stream": "N", "schema": d, "full_merge": full, "instance": x})
+                            found = True
+                            break
+                if not found and ck.cov["disagreements_checked"] <= 3:
                     ck.violation("correspondence-N", "model (coq/Normalize.v) and normalize.py disagree (full_merge=%s, detect_duplicates=%s)" % (full, dup),
                                  {"stream": "N", "schema": d, "full_merge": full, "detect_duplicates": dup,
                                   "impl": (err or json.dumps(J.canon(nf)))[:700], "model": m[:700],
@@ -335,7 +457,7 @@ def run(pid, tier):
                             if got:
                                 sig, what, x = got[0]
                         ck.violation(sig, what, {"stream": "N", "schema": small, "full_merge": full, "instance": x})
-            elif guarded(d):
+            elif guarded(d) and in_c06_scope(d):
                 hist["recursive"] += '"$ref"' in txt
                 for sig, what in oracle_c16(d, full, dup):
                     ck.violation(sig, what, {"stream": "N", "schema": d, "full_merge": full, "detect_duplicates": dup})
